@@ -17,7 +17,7 @@ fn main() {
         "sizes" => {
             for level in 0..2 {
                 println!(
-                    "level {level}: layouts={} m1={} m2={} m3={} m4={} m5={} m6={} m7={} m8={} m9={} m10={} m11={}",
+                    "level {level}: layouts={} m1={} m2={} m3={} m4={} m5={} m6={} m7={} m8={} m9={} m10={} m11={} m12={}",
                     gen::layouts(level).len(),
                     gen::m1(level).len(),
                     gen::m2(level).len(),
@@ -29,7 +29,8 @@ fn main() {
                     gen::m8(level).len(),
                     gen::m9(level).len(),
                     gen::m10(level).len(),
-                    gen::m11(level).len()
+                    gen::m11(level).len(),
+                    gen::m12(level).len()
                 );
             }
         }
